@@ -1113,7 +1113,12 @@ def proximal_convex_conj_l1(space, lam=1, g=None):
             # diff = x - sig * g
             if g is not None:
                 diff = self.domain.element()
-                diff.lincomb(1, x, -self.sigma, g)
+                if np.isscalar(self.sigma):
+                    diff.lincomb(1, x, -self.sigma, g)
+                else:
+                    # pointwise step: sigma * g is an element-wise product
+                    self.sigma.multiply(g, out=diff)
+                    diff.lincomb(1, x, -1, diff)
             else:
                 if x is out:
                     # Handle aliased `x` and `out`
